@@ -274,7 +274,7 @@ def correspond(ctx: C.Ctx, cov: C.Coverage) -> List[C.Disagreement]:
                                                {"seed": ctx.seed, "index": i, "op": op, "path": list(path), "fmt": "json"},
                                                "one of " + "/".join(sorted(DOCUMENTED)), k))
             cov.hit("json:undocumented-kind")
-            continue
+            # the model carries such a kind as `.other` (caught by no handler): the comparison below still runs
         # wire of the damaged document, with the damaged position marked
         def build(mark_path):
             items_ = []
